@@ -17,6 +17,7 @@ for line in open(sys.argv[1]):
 # seeds whose own property is knowingly not alarmed on, with the reason
 NOTES = {
     "C17-1": ("not-decided", "Ternary strategy: cover exactness of the bit arithmetic is declared not decided (not on the production path); see DESIGN.md C17"),
+    "C17-17": ("not-decided", "Ternary strategy again (a shortcut for blocks starting at port 0 rounds the block size up): cover exactness of the bit arithmetic is declared not decided, the strategy has no production caller; see DESIGN.md C17"),
     "C10-1": ("silent", "after fix d513425 (Shutdown idempotent) the change no longer violates C10; it violates C12 (time-out verdict) and is detected there"),
     "C11-1": ("silent", "after fix 26aac09 every caller holds stateMu around the whole function, the check-then-act window is closed; the rule fires on the pre-fix tree (verified) — replaced by hand-made C11-4"),
 }
